@@ -5,6 +5,8 @@ def evs(c):
     L=(c[0],c[1]); n=c[2]; i=3; out=[]
     names={0:('DialPeer',2),1:('DialAddr',2),2:('AddAddr',1),3:('TrDialFailure',2),4:('TrOpened',2),5:('TrOpenFailure',2),6:('TrEstablished',4),7:('TrPendingInbound',1),8:('AcceptDone',2),9:('Closed',2),10:('AllocConn',0)}
     for _ in range(n):
+        if c[i]==11:
+            k=c[i+1]; out.append('DialShape%s'%([tuple(c[i+2+2*j:i+4+2*j]) for j in range(k)],)); i+=2+2*k; continue
         nm,k=names[c[i]]; out.append('%s%s'%(nm,tuple(c[i+1:i+1+k]))); i+=1+k
     return L,out
 def steps(t):
